@@ -332,8 +332,14 @@ def script_set(name, mps):
         lens = [3, h + 1, mps, mps + 3, 2 * mps]
         depth, tails = 2, [0, mps]
     elif name == "thorough":
+        # all triples over six lengths, plus all pairs over a wider set with a longer unfinished tail
+        return script_set("triples", mps) + [q for q in script_set("wide-pairs", mps) if q not in script_set("triples", mps)]
+    elif name == "triples":
+        lens = [1, h + 1, mps, mps + 1, 2 * mps, 2 * mps + 3]
+        depth, tails = 3, [0, 4, mps]
+    elif name == "wide-pairs":
         lens = [1, 4, h + 1, mps, mps + 1, mps + 4, 2 * mps, 2 * mps + 3]
-        depth, tails = 3, [0, 4, mps, 2 * mps]
+        depth, tails = 2, [0, 4, mps, 2 * mps]
     elif name == "pairs":
         lens = [2, mps, mps + 2]
         depth, tails = 2, [0]
